@@ -4,10 +4,44 @@ from .session_prop import *
 ID = 'C13'
 
 
+def stopped_rx_unit():
+    """data that still arrives between the operator's stop and connectionLost: the connection was closed by us, so the
+    receive path does nothing at all — in particular it writes nothing (no NOTIFICATION in answer to anything)"""
+    import copy
+    import z3
+    from . import session_units as SU
+    u = [x for x in SU.rx_units() if x.name == 'BGP.parse_buffer'][0]
+    d = copy.copy(u)
+    d.name = 'BGP.parse_buffer[after operator stop]'
+    orig = u.build
+
+    def build(it):
+        r = orig(it)
+        S = r[3]
+        from pyvc.values import to_bool_term
+        it.p.assume(z3.And(S.st.t == 1, z3.Not(to_bool_term(S.allow_auto)), to_bool_term(S.P.f['disconnected'])))
+        if not it.p.check_feasible_now():
+            from pyvc.values import Infeasible
+            raise Infeasible()
+        return r
+    d.build = build
+    d.clause_props = lambda name: {ID}
+    return d
+
+
 def run(tier, seed, only=None):
     from contracts import session as CS
+    import props.session_prop as SP_
     lemmas = LEMMAS(ID)
-    return run_session(ID, tier, seed, only=only, select=None, lemmas=lemmas)
+    saved = SP_.all_session_units
+
+    def units_for_c13(pid=None):
+        return saved(pid) + [stopped_rx_unit()]
+    SP_.all_session_units = units_for_c13
+    try:
+        return run_session(ID, tier, seed, only=only, select=None, lemmas=lemmas)
+    finally:
+        SP_.all_session_units = saved
 
 
 def LEMMAS(pid):
